@@ -4,7 +4,7 @@
 From Coq Require Import ZArith List Bool.
 From MT Require Import DagFile.FlattenModel DagFile.PruneModel DagFile.CodecModel DagFile.ChronoModel
   DagFile.DagSpec DagFile.CodecProofs DagFile.FlattenProofs DagFile.TotalsProofs DagFile.ChronoProofs
-  DagFile.StackProofs DagFile.BridgeRecord DagFile.Examples.
+  DagFile.StackProofs DagFile.BridgeRecord DagFile.InternModel DagFile.InternProofs DagFile.Examples.
 Import ListNotations.
 Local Open Scope Z_scope.
 
@@ -131,3 +131,29 @@ Example C19_recorded_example :
   wf_root (bridge (fun _ => []) (fun _ => ([97], [98])) (fun _ => true)
              (RM.record false (RM.summ_setting (RM.mkSetting 0 3 0 100000 0)) [] ex_exec)) = true.
 Proof. vm_compute. auto. Qed.
+
+(** ** String interning as read off the current source (translator obligation)
+    tools/props/c19.py translates dr_string_table_find / _append / _flatten of the CURRENT dr_dump.c into a
+    [find_ir] / [store_ir] and evaluates [find_ok] / [store_ok] on it in build/C19/gen/DrIntern.v.  If [find_ok]
+    accepts - every found exit of the lookup loop is guarded by a comparison of the whole strings, whatever other
+    pre-filters (hash, length) there are - the lookup is the model's [st_find] and interning is injective on
+    contents: two names receive the same index iff they are equal strings. *)
+Theorem C19_intern_injective : forall ir o, find_ok ir = true -> (forall k x, o k x x = true) ->
+  forall tbl s s', NoDup tbl ->
+  let '(t1, i) := intern_sem ir o tbl s in
+  let '(t2, j) := intern_sem ir o t1 s' in
+  (i = j <-> s = s') /\ NoDup t2.
+Proof. exact intern_injective. Qed.
+Print Assumptions C19_intern_injective.
+
+(** merged implies equal does not even need the pre-filters to be reflexive *)
+Theorem C19_intern_sound : forall ir o c s, find_ok ir = true -> accept ir o c s = true -> c = s.
+Proof. exact accept_sound. Qed.
+Print Assumptions C19_intern_sound.
+
+Example C19_intern_example :
+  find_ok (mk_find_ir true true true [[APre 0; AStrcmp]]) = true /\
+  find_ok (mk_find_ir true true true [[APre 0]]) = false /\
+  find_ok (mk_find_ir true true true [[AMemcmpLen]]) = false /\
+  find_ok (mk_find_ir true true true [[ALenEq; AMemcmpLen]]) = true.
+Proof. repeat split. Qed.
